@@ -312,3 +312,49 @@ Proof. vm_compute. reflexivity. Qed.
 (* ---------- Cluster YAML flags: every combination of the constructor flags survives the dictionary ---------- *)
 Theorem cluster_flags_roundtrip (t v : bool) : cluster_flags_of_keys (cluster_asdict_keys t v) = (t, v).
 Proof. destruct t, v; reflexivity. Qed.
+
+(* ---------- numbered families of sub-groups: reading by number restores the list, for every length ---------- *)
+Section FamilyProofs.
+Variables K A : Type.
+Variable keqb : K -> K -> bool.
+Variable name : nat -> K.
+Hypothesis name_inj : forall i j, keqb (name i) (name j) = true <-> i = j.
+
+Lemma kassoc_write_from (l : list A) : forall s i, s <= i ->
+  kassoc keqb (name i) (write_family_from name s l) = nth_error l (i - s).
+Proof.
+  induction l as [|x l IH]; intros s i Hi; unfold write_family_from in *; cbn [length seq map combine kassoc].
+  - destruct (i - s); reflexivity.
+  - destruct (keqb (name s) (name i)) eqn:E.
+    + apply name_inj in E. subst. rewrite Nat.sub_diag. reflexivity.
+    + assert (i <> s) by (intro X; subst; rewrite (proj2 (name_inj s s) eq_refl) in E; discriminate).
+      rewrite (IH (S s) i) by lia. replace (i - s) with (S (i - S s)) by lia. reflexivity.
+Qed.
+
+Lemma map_nth_error_seq (l : list A) : map (fun i => nth_error l i) (seq 0 (length l)) = map Some l.
+Proof.
+  induction l as [|x l IH]; [reflexivity|]. cbn [length seq map nth_error]. f_equal.
+  rewrite <- seq_shift, map_map. exact IH.
+Qed.
+
+Theorem family_roundtrip (l : list A) :
+  read_by_number keqb name (write_family name l) (length l) = map Some l.
+Proof.
+  unfold read_by_number, write_family. rewrite <- map_nth_error_seq. apply map_ext_in. intros i _.
+  rewrite kassoc_write_from by lia. rewrite Nat.sub_0_r. reflexivity.
+Qed.
+End FamilyProofs.
+
+(* reading the same family in the group's alphabetical iteration order is wrong from 11 members on *)
+Theorem family_alphabetical_refuted :
+  exists l : list nat,
+    read_alphabetical (write_family digits l) <> l /\
+    read_alphabetical (write_family digits l) = [0; 1; 10; 2; 3; 4; 5; 6; 7; 8; 9].
+Proof. exists (seq 0 11). split; [vm_compute; discriminate | vm_compute; reflexivity]. Qed.
+
+Fixpoint lnat_eqb (a b : list nat) : bool :=
+  match a, b with [], [] => true | x :: a', y :: b' => Nat.eqb x y && lnat_eqb a' b' | _, _ => false end.
+Example family_roundtrip_example :
+  read_by_number lnat_eqb digits (write_family digits (seq 100 120)) 120 = map Some (seq 100 120) /\
+  read_alphabetical (write_family digits (seq 0 10)) = seq 0 10.
+Proof. split; vm_compute; reflexivity. Qed.
